@@ -101,6 +101,15 @@ CHECKS["C09"] = dict(
    note="Partial: the grammars of C/C++/JS/Rust are not modelled; the general declared-before-use theorem over all reference graphs is not proved "
         "(evaluated per generated graph). Two recorded findings (known_findings.txt): keyword-escape collision, parameter named `this`.",
    design="§5 C09")
+CHECKS["C14"] = dict(
+   text="Partial. Collect/Model.v transcribes how Module::from_syn / File fold items into name-keyed BTreeMaps; C14_collect_lookup, "
+        "C14_order_independent (any reordering that keeps each type's impl blocks in relative order collects to the same map), C14_others_ignored, "
+        "C14_unrelated_type_local. Tied to the code by comparing ast::File's own iteration with the model in Coq, and by differential runs of the real "
+        "CLI for all seven backends: same input twice in fresh processes, permuted modules/items, extra non-bridge items (incl. same-named types and a "
+        "foreign ::bridge attribute), an unreferenced type removed — outputs compared byte for byte.",
+   note="Partial: the renderers are not modelled; their independence from hash-iteration order and from unrelated types is only exercised by the runs. "
+        "Trusted: Coq kernel+vm_compute, hand transcription, generators.",
+   design="§5 C14")
 NOT_YET = {
 }
 ALL = [f"C{i:02d}" for i in range(1, 18)]
